@@ -24,7 +24,7 @@ CHECKS = {
    "capacity >= 2x the block's contiguous unit; bit-stream blocks get {0,1}; integer blocks get non-overflowing values", "DESIGN.md §5 C08"),
  "C09": ("E2 drip-feed driver", "exploration",
    "property testing with a per-call verdict oracle (handle counts, wait probing, spin detection, retirement)",
-   "On every work() call of generated drip schedules (all catalogue blocks plus sources/sinks): no stream refusal, exactly two handles per open stream afterwards, no idle wait on an already satisfied stream, providing exactly what was asked leads to progress, no 6x idle Again, retirement after inputs end.",
+   "On every work() call of generated drip schedules (all catalogue blocks plus sources/sinks): no stream refusal, exactly two handles per open stream afterwards, no idle wait on an already satisfied stream, providing exactly what was asked leads to progress, no 6x idle Again, retirement after inputs end, no output after a retirable verdict, and finite sources (vector, file incl. files ending inside a sample, SigMF) with drained output report EOF.",
    "activity = change of buffered counts on harness-owned ends; requests above capacity not probed; WaitForFunc not executed", "DESIGN.md §5 C09"),
  "C12": ("E2 drip-feed driver", "exploration",
    "property testing with index-valued tags (expected tag sequence per block rule vs observed, under drip schedules)",
@@ -50,12 +50,12 @@ CHECKS = {
    "max_size inclusive; zero-length deliveries between adjacent flags ignored; no subset-of-payload claim for corrupted input", "DESIGN.md §5 C13"),
 
  "C18": ("E1 ring model + E6 OS fault harness", "exploration",
-   "stateful property testing against /proc observations; fault injection in child processes (RLIMIT_AS, map-count exhaustion)",
+   "stateful property testing against /proc observations; fault injection in child processes (RLIMIT_AS, map-count exhaustion, descriptor exhaustion)",
    "Generated create/use/drop histories of up to 200 buffers over 1-8 threads, and concurrent churn in a child process (holders re-verifying pools of small buffers while churners create and drop buffers of up to 6 MiB; a child crash is a violation), must return the count of deleted-file mappings and of descriptors to the baseline; the mapping layout and byte-for-byte aliasing of the halves is checked for every offset; the set-up table (element kinds x valid/invalid/huge sizes up to 2^63-4096, where the kernel may refuse at ftruncate or mmap) is enumerated and extended by generated sizes and by elements of 1-6 pages; mapping failures injected in child processes must surface as Err without leaks.",
-   "only stream-attributable /proc entries are counted; single-threaded check; injected faults are ENOMEM from RLIMIT_AS and vm.max_map_count", "DESIGN.md §5 C18"),
+   "only stream-attributable /proc entries are counted; single-threaded check; injected faults are ENOMEM from RLIMIT_AS and vm.max_map_count, and EMFILE from RLIMIT_NOFILE", "DESIGN.md §5 C18"),
 
  "C17": ("E6 OS fault harness", "fault_enumeration",
-   "model-based testing of open modes (enumerated) + crash-point enumeration (file inspected after every work() return, generated batch sizes / sample types / stream sizes) + crash-point fault injection (SIGKILL of a child process at generated points, prefix/acknowledgement oracle)",
+   "model-based testing of open modes (enumerated) + crash-point enumeration (file inspected after every work() return, generated batch sizes / sample types / stream sizes) + crash-point fault injection (SIGKILL of a child process at generated points, prefix/acknowledgement oracle; short writes forced by RLIMIT_FSIZE in a child)",
    "All 54 combinations of mode x initial file state x sink kind are enumerated against a model of the documented modes; a child process streams seeded data through the sink and acknowledges consumed counts after every work(); it is SIGKILLed after a generated number of acknowledgements plus a generated spin, and the file must be a prefix of the serialised stream at least as long as what was acknowledged; in-process, the file is read through a second descriptor after every work() return (what a kill at that instant leaves) for FileSink<u8|f32|Complex|u32> with batches of 1-200 000 samples on 8 KiB-4 MB streams; crash points inside a call: FIFO destination drained in pieces (consumed <= read + pipe capacity at every observation) and /dev/full (a failed write consumes nothing); Append with a second appender on the same file.",
    "process death, not power loss; root user (structural instead of permission-based failures); kill instants sampled, oracle valid for any instant", "DESIGN.md §5 C17"),
 
@@ -78,7 +78,7 @@ CHECKS = {
    "balanced diamonds only; blocks chunking-invariant (C08)", "DESIGN.md §5 C06"),
  "C07": ("E4 schedule explorer + E5 graph generator", "exploration",
    "fault-injecting, schedule-exploring property testing (cancellation at generated scheduling points; failing wrapper block at generated position/call; both runners)",
-   "Both runners execute generated graphs on the shuttle runtime while a canceller task cancels after a generated number of scheduling points, or a wrapper block fails on its k-th call, several failing blocks (up to every block), or cancel and fail at once (the failing call passes scheduling points while the canceller runs); cancel => run() returns Ok with <= 1 further work() call per block and all MT blocks dropped; fail => run() returns an Err carrying the injected marker; panics, Ok, other errors and non-return are violations.",
+   "Both runners execute generated graphs on the shuttle runtime while a canceller task cancels after a generated number of scheduling points, or a wrapper block fails on its k-th call, several failing blocks (up to every block), or cancel and fail at once (the failing call passes scheduling points while the canceller runs); cancel => run() returns Ok with <= 1 further work() call per block and all MT blocks dropped; fail => run() returns an Err carrying the injected marker; panics, Ok, other errors and non-return are violations. MTGraph plans may contain a block answering Pending for 1-29 calls; no single sleep a runner thread asks for (reported by the shim, no wall clock) may exceed 10 s, since the token is not looked at during a sleep.",
    "bounded liveness; if the failing block never reaches call k nothing is injected", "DESIGN.md §5 C07"),
 
  "C11": ("E2 drip-feed driver + E3 reference models", "exploration",
@@ -147,7 +147,7 @@ def main():
             {"name": "E5 graph generator + reference executor", "path": "harness/src/graphgen.rs", "serves_properties": ["C05", "C06", "C07"],
              "kind_free_text": "recipe -> graph (built twice), sequential reference executor, wrapper blocks for cancellation/failure accounting"},
             {"name": "E6 OS fault harness", "path": "harness/src/osfault.rs", "serves_properties": ["C17", "C18"],
-             "kind_free_text": "/proc readers; the harness binary re-executes itself in child modes (rlimit, mapcount, sink) for rlimits, map-count exhaustion and SIGKILL"},
+             "kind_free_text": "/proc readers; the harness binary re-executes itself in child modes (rlimit, mapcount, sink, churn, fsize, nofile) for rlimits, map-count exhaustion and SIGKILL"},
             {"name": "E7 fuzz entries", "path": "harness/src/fuzz_entry.rs, harness/fuzz/ (cargo-fuzz), corpus/", "serves_properties": ["C15"],
              "kind_free_text": "byte -> structured-argument decoders with the oracle inside the target; shared by proptest runs, libFuzzer+ASan campaigns and single-input replay"},
             {"name": "E3 reference models", "path": "harness/src/refmodel.rs", "serves_properties": ["C10", "C11", "C13", "C14", "C20"],
